@@ -1,12 +1,76 @@
+import json
+import os
+import re
+
 from props import P
+
+
+def translate(check):
+    """Regenerate, from the REAL builder, the timing tables of every preset of presets.go into
+    build/gen/C22/GenC22.v and let Coq evaluate the Spec-vs-table obligations on them."""
+    import verif
+    gen = os.path.join(verif.BUILD, "gen", "C22" + verif.ALT)
+    os.makedirs(gen, exist_ok=True)
+    rc, out, _ = verif.build_harness("C22")
+    if rc != 0:
+        return False, "harness does not build: " + out[-400:]
+    inp = os.path.join(gen, "dump.json")
+    json.dump({"case": {"dump": True, "spec": {"preset": "Default"}}}, open(inp, "w"))
+    rc, out, _ = verif.run_harness("C22", ["replay", "C22", "-file", inp, "-out", os.path.join(gen, "run")], timeout=300)
+    if rc != 0:
+        return False, "preset dump failed: " + out[-400:]
+    rec = json.loads(open(os.path.join(gen, "run", "cases.jsonl")).readline())
+    tables = rec["observed"]
+    # every preset declared in presets.go must have been dumped
+    src = open(os.path.join(verif.REPO, "mem", "dram", "presets.go")).read()
+    declared = re.findall(r"^var\s+(\w+)\s*=\s*Spec\{", src, re.M)
+    missing = [d for d in declared if d not in tables]
+    if missing or not declared:
+        return False, "presets.go declares presets the harness does not know: %s" % missing
+    lines = ["(* GENERATED on every check from /repo/mem/dram (builder.generateTiming via the verif export). Do not edit. *)",
+             "From Akita Require Import Lib.Base C22.Model C22.Exec.", "Local Open Scope N_scope.", ""]
+    names = sorted(tables)
+    for n in names:
+        lines.append("Definition tb_%s : tables := %s." % (n, tables[n]))
+    lines.append("Definition gen_presets : list tables := [%s]." % "; ".join("tb_" + n for n in names))
+    lines.append("(* table[ACT->RD/WR] = tRCD - tAL (tRCDRD/tRCDWR for GDDR/HBM), [ACT->PRE] = tRAS, [PRE->ACT] = tRP, [ACT->ACT] = tRC = tRAS + tRP *)")
+    lines.append("Example gen_presets_ok : forallb table_facts gen_presets = true.")
+    lines.append("Proof. vm_compute. reflexivity. Qed.")
+    open(os.path.join(gen, "GenC22.v"), "w").write("\n".join(lines) + "\n")
+    rc, out, _ = verif.sh(["coqc", "-Q", os.path.join(verif.COQ, "theories"), "Akita", "-Q", gen, "GenC22", "GenC22.v"],
+                          cwd=gen, timeout=600)
+    check.cov["generated_obligations"] = {"file": os.path.join(gen, "GenC22.v"), "presets": names,
+                                          "declared_in_presets_go": declared, "rc": rc}
+    if rc != 0:
+        return False, "a preset's generated table contradicts its Spec: " + out[-600:]
+    return True, ""
+
 
 P("C22",
   title="DRAM issues commands in protocol-legal order and timing",
   design_ref="DESIGN.md §3 C22",
-  technique="Coq proof over an exact model of the bank kernels (arbitrary scheduler oracle, arbitrary timing table) + exact tie + acceptor on real command streams",
-  level_text="placeholder",
-  level_note="placeholder",
+  technique="Coq proof over an exact model of the DRAM bank kernels (arbitrary scheduler oracle, arbitrary timing table and tFAW) + exact "
+            "model/implementation tie on the kernels and on whole runs + verified acceptor on real command streams; preset tables regenerated from the real builder on every run",
+  level_text="PARTIAL (completion is sampled). Proved, closed, for every timing table, every tFAW and every oracle: c22_state_machine_legal with its readings "
+             "c22_row_activated_before_access and c22_precharged_before_activate, c22_min_separation (ANY two issued commands, any table entry of the relation "
+             "same bank / other bank of the group / same rank / other rank), c22_tfaw (four-activate window), c22_acceptor_sound (the boolean evaluators used on "
+             "observed streams mean the same declarative statements), c22_run_is_trace. Tie: (1) the real kernels (tickBanks, getReadyCommand incl. tFAW, "
+             "startCommand, updateTiming, reached through verif-tagged wrappers) driven by a random oracle from clean and arbitrary bank states must agree with the "
+             "model on every readiness decision, every progress flag and the final bank-level state; (2) real dram.Comp runs under contended traffic for every preset "
+             "and page policy: the issued stream (derived from the existing command-issue milestones + the component State) replayed through the model must reproduce "
+             "every issue decision and the sampled/final bank-level State exactly, and the stream itself (engine cycles) must satisfy the automaton, every pairwise "
+             "separation of the table the real builder generated, tFAW, and the Spec-vs-table facts; (3) the tables of every preset in presets.go are regenerated and "
+             "checked in Coq on every run (translate step). 'Every request completes and reads return the last written data' is checked per run by the harness.",
+  level_note="Not modelled: the FR-FCFS scheduler and queues (an arbitrary oracle in the theorems; its real choices are replayed in the tie), refresh (a global stall: "
+             "ticks without issue), address decoding, the completion timeline. Found while building the generator, outside the quantifier: with tRAS < tRCD (no real "
+             "device) FR-FCFS precharges a freshly activated row before its access can issue, for ever (livelock); the generator keeps tRAS >= tRCD + 8.",
+  assumptions=["bank coordinates of queued commands are in range (guaranteed by mapAddress: masks are 2^floor(log2 n) - 1)",
+               "TickCount and activate stamps do not wrap (2^64 ticks)",
+               "separations are stated in TickCount ticks; engine cycles never advance slower than TickCount (re-checked per run: cycles_dominate)"],
+  trusted=["modelled, not verified: mem/dram bank_ops.go (tickBank(s), getRequiredCommandKind, getReadyCommand, canActivateUnderTFAW, startCommand, updateTiming, "
+           "recordActivateTimestamp), comp.go bankFlatIndex/findBankState, the bank-level part of banktickmw.go",
+           "verif-tagged read-only export mem/dram/verif_export.go (tables + kernel wrappers); the harness's derivation of the issued stream from milestones and State",
+           "completion/data check of the requester in the Go harness"],
   quick_shards=8,
-  assumptions=[],
-  trusted=[],
+  translate=translate,
   )
